@@ -311,6 +311,7 @@ package cli
 //@ func (*Cmd).parse
 //@   logged
 //@   requires recv: c != nil && c.fsm != nil && entry != nil
+//@   requires entry-is-a-no-op: entry.Do == nil
 //@   requires wf: allCmdWF(fieldHeap(c.options), fieldHeap(c.args), fieldHeap(c.commands), fieldHeap(c.optionsIdx), fieldHeap(c.argsIdx))
 //@   requires names: noHelpNames(fieldHeap(c.aliases))
 //@   requires hook: exiter != nil
@@ -411,6 +412,7 @@ package cli
 //@ func (*Cli).parse
 //@   logged
 //@   requires recv: cli != nil && cli.Cmd != nil && cli.Cmd.fsm != nil && entry != nil
+//@   requires entry-is-a-no-op: entry.Do == nil
 //@   requires version-wf: cli.version != nil ==> cli.version.option != nil
 //@   requires wf: allCmdWF(fieldHeap(cli.Cmd.options), fieldHeap(cli.Cmd.args), fieldHeap(cli.Cmd.commands), fieldHeap(cli.Cmd.optionsIdx), fieldHeap(cli.Cmd.argsIdx))
 //@   requires names: noHelpNames(fieldHeap(cli.Cmd.aliases))
